@@ -27,7 +27,10 @@ namespace GilVerif.Model.C14
 
 /-! ### formats and tags -/
 
-inductive CS where | gray | rgb | rgba
+inductive CS where | gray | rgb | rgba | cmyk
+  deriving DecidableEq, Repr
+/-- channel order of the layout: colour-space order, reversed (bgr / abgr), or alpha first (argb) -/
+inductive Order where | fwd | rev | argb
   deriving DecidableEq, Repr
 inductive Depth where | b1 | b8 | b16
   deriving DecidableEq, Repr
@@ -37,35 +40,52 @@ inductive Org where | interleaved | planar | bitAligned
 /-- pixel format of one alternative of a type list -/
 structure Fmt where
   cs : CS
-  rev : Bool          -- reversed channel order (bgr_layout_t / abgr_layout_t)
+  order : Order
   depth : Depth
   org : Org
   deriving DecidableEq, Repr
 
-def CS.n : CS → Nat | .gray => 1 | .rgb => 3 | .rgba => 4
+def CS.n : CS → Nat | .gray => 1 | .rgb => 3 | .rgba => 4 | .cmyk => 4
 def Depth.bits : Depth → Nat | .b1 => 1 | .b8 => 8 | .b16 => 16
 def Fmt.nc (f : Fmt) : Nat := f.cs.n
 def Fmt.bits (f : Fmt) : Nat := f.depth.bits
 def Fmt.maxV (f : Fmt) : Nat := 2 ^ f.bits - 1
-/-- physical position of semantic channel `c` (an involution: also the semantic index of physical channel `c`) -/
-def Fmt.phys (f : Fmt) (c : Nat) : Nat := if f.rev then f.nc - 1 - c else c
+/-- physical position of semantic channel `c` -/
+def Fmt.phys (f : Fmt) (c : Nat) : Nat :=
+  match f.order with
+  | .fwd => c
+  | .rev => f.nc - 1 - c
+  | .argb => (c + 1) % f.nc
+/-- semantic index of physical channel `k` (inverse of `phys` on `[0, nc)`) -/
+def Fmt.sem (f : Fmt) (k : Nat) : Nat :=
+  match f.order with
+  | .fwd => k
+  | .rev => f.nc - 1 - k
+  | .argb => (k + (f.nc - 1)) % f.nc
 
-def g8 : Fmt := ⟨.gray, false, .b8, .interleaved⟩
-def rgb8 : Fmt := ⟨.rgb, false, .b8, .interleaved⟩
-def bgr8 : Fmt := ⟨.rgb, true, .b8, .interleaved⟩
-def rgb8p : Fmt := ⟨.rgb, false, .b8, .planar⟩
-def rgba8 : Fmt := ⟨.rgba, false, .b8, .interleaved⟩
-def rgb16 : Fmt := ⟨.rgb, false, .b16, .interleaved⟩
-def g1 : Fmt := ⟨.gray, false, .b1, .bitAligned⟩
+def g8 : Fmt := ⟨.gray, .fwd, .b8, .interleaved⟩
+def rgb8 : Fmt := ⟨.rgb, .fwd, .b8, .interleaved⟩
+def bgr8 : Fmt := ⟨.rgb, .rev, .b8, .interleaved⟩
+def rgb8p : Fmt := ⟨.rgb, .fwd, .b8, .planar⟩
+def rgba8 : Fmt := ⟨.rgba, .fwd, .b8, .interleaved⟩
+def rgb16 : Fmt := ⟨.rgb, .fwd, .b16, .interleaved⟩
+def g1 : Fmt := ⟨.gray, .fwd, .b1, .bitAligned⟩
+def g16 : Fmt := ⟨.gray, .fwd, .b16, .interleaved⟩
+def argb8 : Fmt := ⟨.rgba, .argb, .b8, .interleaved⟩
+def cmyk8 : Fmt := ⟨.cmyk, .fwd, .b8, .interleaved⟩
+def rgb16p : Fmt := ⟨.rgb, .fwd, .b16, .planar⟩
 
 /-- the representative type lists of the harness -/
 def L7 : List Fmt := [g8, rgb8, bgr8, rgb8p, rgba8, rgb16, g1]
 def L6 : List Fmt := [g8, rgb8, bgr8, rgb8p, rgba8, rgb16]
 def LS : List Fmt := [g8, rgb8]
+/-- the second representative list (ops prefixed with `B`) -/
+def LB : List Fmt := [g16, argb8, rgba8, cmyk8, rgb16, rgb16p]
 
 def Fmt.parse : String → Option Fmt
   | "g8" => some g8 | "rgb8" => some rgb8 | "bgr8" => some bgr8 | "rgb8p" => some rgb8p
-  | "rgba8" => some rgba8 | "rgb16" => some rgb16 | "g1" => some g1 | _ => none
+  | "rgba8" => some rgba8 | "rgb16" => some rgb16 | "g1" => some g1
+  | "g16" => some g16 | "argb8" => some argb8 | "cmyk8" => some cmyk8 | "rgb16p" => some rgb16p | _ => none
 
 /-- `views_are_compatible` / `pixels_are_compatible`: same colour space and pairwise compatible channels
     (within the depths modelled here the channel value type is determined by the depth). Channel order and
@@ -124,7 +144,7 @@ def View.retag {t} (v : View t) (t' : Tag) : View t' := ⟨v.w, v.h, v.org0, v.x
 /-! ### pixel functions (lists of channel values in PHYSICAL order) -/
 
 def toSem (f : Fmt) (p : List Nat) : List Nat := (List.range f.nc).map (fun c => p.getD (f.phys c) 0)
-def fromSem (f : Fmt) (q : List Nat) : List Nat := (List.range f.nc).map (fun j => q.getD (f.phys j) 0)
+def fromSem (f : Fmt) (q : List Nat) : List Nat := (List.range f.nc).map (fun k => q.getD (f.sem k) 0)
 /-- assignment between compatible pixels pairs channels by colour -/
 def pairPx (sf df : Fmt) (p : List Nat) : List Nat := fromSem df (toSem sf p)
 
@@ -159,6 +179,7 @@ def rgbTo (sb : Nat) (df : Fmt) (r g b : Nat) : List Nat :=
   | .gray => [rgbToGray sb df.bits r g b]
   | .rgb => [cc r, cc g, cc b]
   | .rgba => [cc r, cc g, cc b, cc (2 ^ sb - 1)]
+  | .cmyk => []        -- rgb -> cmyk is a binary64 path of the library (C09); not modelled, never generated
 
 def grayTo (sb : Nat) (df : Fmt) (g : Nat) : List Nat :=
   let cc := chanConv sb df.bits
@@ -166,8 +187,9 @@ def grayTo (sb : Nat) (df : Fmt) (g : Nat) : List Nat :=
   | .gray => [cc g]
   | .rgb => [cc g, cc g, cc g]
   | .rgba => [cc g, cc g, cc g, cc (2 ^ sb - 1)]
+  | .cmyk => []
 
-/-- `default_color_converter` -/
+/-- `default_color_converter` (gray / rgb / rgba sources and destinations; cmyk only to cmyk) -/
 def convDefault (sf df : Fmt) (p : List Nat) : List Nat :=
   let s := toSem sf p
   let sb := sf.bits
@@ -177,7 +199,10 @@ def convDefault (sf df : Fmt) (p : List Nat) : List Nat :=
     | .rgb => rgbTo sb df (ch 0) (ch 1) (ch 2)
     | .rgba => match df.cs with
       | .rgba => s.map (chanConv sb df.bits)
-      | _ => rgbTo sb df (chanMul sb (ch 0) (ch 3)) (chanMul sb (ch 1) (ch 3)) (chanMul sb (ch 2) (ch 3)))
+      | _ => rgbTo sb df (chanMul sb (ch 0) (ch 3)) (chanMul sb (ch 1) (ch 3)) (chanMul sb (ch 2) (ch 3))
+    | .cmyk => match df.cs with
+      | .cmyk => s.map (chanConv sb df.bits)
+      | _ => [])
 
 /-- the harness' user-defined converter `sum_cc` -/
 def convSum (df : Fmt) (p : List Nat) : List Nat :=
@@ -215,7 +240,7 @@ inductive Xf where
 
 /-- same pixel value type (colour space, channel order, channel depth; the organisation does not matter:
     the value_type of a planar rgb8 view is rgb8_pixel_t) -/
-def sameValueType (a b : Fmt) : Bool := decide (a.cs = b.cs) && decide (a.rev = b.rev) && decide (a.depth = b.depth)
+def sameValueType (a b : Fmt) : Bool := decide (a.cs = b.cs) && decide (a.order = b.order) && decide (a.depth = b.depth)
 
 /-- result alternative (the mapped type list of the lifted factory) -/
 def Xf.tag : Xf → Tag → Tag
@@ -227,7 +252,7 @@ def Xf.tag : Xf → Tag → Tag
     -- __nth_channel_view: channels adjacent in memory (no x step, planar or single channel) -> plain gray view,
     -- otherwise a gray view with an x step
     let adjacent := !t.xstep && (t.fmt.org == .planar || t.fmt.nc == 1)
-    { t with fmt := ⟨.gray, false, t.fmt.depth, .interleaved⟩, xstep := !adjacent }
+    { t with fmt := ⟨.gray, .fwd, t.fmt.depth, .interleaved⟩, xstep := !adjacent }
   | .cc d _, t =>
     -- color_converted_view_type: when the source's value_type already is DstP the result IS the source view
     if sameValueType t.fmt d then t else { t with fmt := { d with org := .interleaved }, adaptedFrom := t.adaptedFrom ++ [t.fmt] }
@@ -441,7 +466,7 @@ def val (s x y c bits : Nat) : Nat :=
   let d := ((b ^^^ (b >>> 15)) * 2246822519) % 4294967296
   (d >>> 13) % 2 ^ bits
 
-def content (f : Fmt) (s : Nat) (x y k : Nat) : Nat := val s x y (f.phys k) f.bits
+def content (f : Fmt) (s : Nat) (x y k : Nat) : Nat := val s x y (f.sem k) f.bits
 
 /-- `image(w, h)` filled with the content of seed `s`. As in image.hpp, a constructor call whose allocation size is
     zero (w = 0 or h = 0) returns before the view is set: the image then reports 0 x 0. -/
